@@ -82,8 +82,12 @@ def degenerate_full(st):
     sv = st["out"]["svals"]
     nz = [v for v in sv if v != 0]
     rep = len(set(nz)) < len(nz)
-    if rep or st["out"]["nullL"] >= 2 or st["out"]["nullR"] >= 2:
+    if rep:
         return "degenerate-spectrum"
+    if st["out"]["nullL"] >= 2 or st["out"]["nullR"] >= 2:
+        # only the null spaces are degenerate: the recorded finding there is about orthonormality of the null vectors; the
+        # reconstruction and the Eckart-Young clauses hold on the unchanged tree and are judged strictly
+        return "degenerate-null-space"
     return "simple-spectrum"
 
 
